@@ -477,3 +477,7 @@ MUTANTS += [
          old="            # axial and shear strains\n            B_Gamma = B_Gamma_bar / Ji\n\n            # torsional and flexural strains\n            B_Kappa = B_Kappa_bar / Ji\n\n            # evaluate strain energy function",
          new="            B_Gamma_bar /= Ji\n            B_Kappa_bar /= Ji\n            B_Gamma, B_Kappa = B_Gamma_bar, B_Kappa_bar\n\n            # evaluate strain energy function", expect="C26.R6"),
 ]
+MUTANTS += [
+    dict(id="c26-r6-seed", canary=True, what="[seeded by sub-agent] Sphere2Sphere.n stores the centre distance as a side effect for n_q1_q2 to reuse", file="cardillo/contacts/sphere2sphere.py",
+         old="        return r_C1C2 / norm(r_C1C2)\n", new="        self.d_C1C2 = norm(r_C1C2)\n        return r_C1C2 / self.d_C1C2\n", expect="C26.R6"),
+]
